@@ -11,6 +11,9 @@ CLAIMED = {
  "C02": dict(cat="proof", ref="5 C02", tech=TECH,
    text="every enqueue/send/flush of WriteConnection is proved against the history variable stream() = concat(write log) + pending: accepted message => stream grows by exactly enc(value)+NUL, refused => unchanged; flush = one write of everything pending, none when empty",
    note="assumed: to_slice through its contract [U3.to_slice] (proved separately as far as unit json_bytes goes), transport write contract, vstd Vec specs"),
+ "C03": dict(cat="proof", ref="5 C03", tech=TECH,
+   text="per serde data-model call, the bytes appended by the real json_ser.rs functions equal a spec of compact JSON: write_all (all-or-nothing), the 256-entry escape table, the escaped-string loop (unbounded, for all UTF-8 strings: appended bytes = escape_all(bytes); unreachable_unchecked proved unreachable; both from_utf8_unchecked preconditions discharged), every Formatter literal/number writer, write_char_escape, write_byte_array; corollary lemma: no byte < 0x20 inside an encoded string",
+   note="assumed: spec enc is a faithful transcription of serde_json's CompactFormatter; itoa/ryu; one UTF-8 cut-at-ASCII axiom; slice length <= isize::MAX; monomorphic instance only (N5); lifting to all Serialize values is on paper"),
  "C06": dict(cat="proof", ref="5 C06", tech=TECH,
    text="Chain::new/append keep call_count/reply_count = number of calls / of non-oneway calls and enqueue each call as one frame; ReplyStream::new starts done iff no reply is owed; the accounting statements of poll_next (extracted fragment) advance the index exactly on a final reply or method error and set done exactly on error or when the owed count is reached; a proved counting lemma shows a conforming reply script is consumed exactly",
    note="assumed/unverified: Chain::send and the pin-projection / unsafe / ready! plumbing of poll_next around the fragment; enqueue_call via its write_path contract; composition with C01 on paper"),
@@ -38,7 +41,6 @@ NA = {
  "C15": "compilation and wire behaviour of code produced by codegen -> proc-macros -> serde; per-program property over generated code",
  "C16": "derive-macro output and macro-generated const TYPE impls; equality of compile-time constants per program",
  "C20": "semantics of tokio broadcast / async-broadcast channels under task interleavings; Kani has no threads, Verus would need permission types for code we do not own",
- "C03": "not yet built (planned: unit json_bytes)",
  "C13": "not yet built (planned: unit idl_tokens)",
  "C19": "not yet built (planned: unit transport)",
 }
